@@ -30,7 +30,7 @@ package keeper
 // ---- C09: the execution head advances only by valid child blocks ----------------------------------------
 
 //@ func (msgServer).NewEthBlock
-//@ requires counters: st.bitcoin.EthTxNonce < 9223372036854775808
+//@ requires counters: st.bitcoin.EthTxNonce < 9223372036854775808 && st.locking.EthTxNonce < 9223372036854775808
 //@ property C09 C08
 //@ requires inv20: st.bitcoin.Params.DepositTaxRate < 10000 && st.bitcoin.Params.MinDepositAmount >= 1000 && st.bitcoin.Params.ConfirmationNumber >= 1
 //@ requires counter: st.goat.Block.BlockNumber < 18446744073709551615
@@ -47,14 +47,51 @@ package keeper
 
 // VerifyDequeue re-derives the due system transactions (this pops both module queues in the context it is
 // given) and compares them with the head of the block's transaction list.
+//@ smt (declare-fun ethtx_bytes (Int) Bytes)
+// by_list(t, base, l, n): t[base+i] is the binary encoding of transaction l[i] for i < n (what the two comparison loops establish).
+// by_dep / by_paid / by_rej / by_rwd / by_unl(t, base, q, n, nonce): t[base+i] is the binary encoding of the system transaction
+// built from queue item q[i] with nonce nonce+i, for i < n.
+//@ smt (define-fun by_list ((t Slc_Bytes) (base Int) (l Slc_Int) (n Int)) Bool (forall ((k Int)) (! (=> (and (<= (+ (off_Slc_Bytes t) base) k) (< k (+ (off_Slc_Bytes t) base n)))
+//@       (= (select (arr_Slc_Bytes t) k) (ethtx_bytes (select (arr_Slc_Int l) (+ (off_Slc_Int l) (- k (off_Slc_Bytes t) base)))))) :pattern ((select (arr_Slc_Bytes t) k)))))
+//@ smt (define-fun by_dep ((t Slc_Bytes) (base Int) (q Slc_Opt_T_bitcoin_types_DepositExecReceipt) (n Int) (nonce Int)) Bool (forall ((k Int)) (! (=> (and (<= (+ (off_Slc_Bytes t) base) k) (< k (+ (off_Slc_Bytes t) base n)))
+//@       (= (select (arr_Slc_Bytes t) k) (ethtx_bytes (ethtx_deposit (select (arr_Slc_Opt_T_bitcoin_types_DepositExecReceipt q) (+ (off_Slc_Opt_T_bitcoin_types_DepositExecReceipt q) (- k (off_Slc_Bytes t) base))) (+ nonce (- k (off_Slc_Bytes t) base)))))) :pattern ((select (arr_Slc_Bytes t) k)))))
+//@ smt (define-fun by_paid ((t Slc_Bytes) (base Int) (q Slc_Opt_T_bitcoin_types_WithdrawalExecReceipt) (n Int) (nonce Int)) Bool (forall ((k Int)) (! (=> (and (<= (+ (off_Slc_Bytes t) base) k) (< k (+ (off_Slc_Bytes t) base n)))
+//@       (= (select (arr_Slc_Bytes t) k) (ethtx_bytes (ethtx_paid (select (arr_Slc_Opt_T_bitcoin_types_WithdrawalExecReceipt q) (+ (off_Slc_Opt_T_bitcoin_types_WithdrawalExecReceipt q) (- k (off_Slc_Bytes t) base))) (+ nonce (- k (off_Slc_Bytes t) base)))))) :pattern ((select (arr_Slc_Bytes t) k)))))
+//@ smt (define-fun by_rej ((t Slc_Bytes) (base Int) (q Slc_Int) (n Int) (nonce Int)) Bool (forall ((k Int)) (! (=> (and (<= (+ (off_Slc_Bytes t) base) k) (< k (+ (off_Slc_Bytes t) base n)))
+//@       (= (select (arr_Slc_Bytes t) k) (ethtx_bytes (ethtx_reject (select (arr_Slc_Int q) (+ (off_Slc_Int q) (- k (off_Slc_Bytes t) base))) (+ nonce (- k (off_Slc_Bytes t) base)))))) :pattern ((select (arr_Slc_Bytes t) k)))))
+//@ smt (define-fun by_rwd ((t Slc_Bytes) (base Int) (q Slc_Opt_T_locking_types_Reward) (n Int) (nonce Int)) Bool (forall ((k Int)) (! (=> (and (<= (+ (off_Slc_Bytes t) base) k) (< k (+ (off_Slc_Bytes t) base n)))
+//@       (= (select (arr_Slc_Bytes t) k) (ethtx_bytes (ethtx_reward (select (arr_Slc_Opt_T_locking_types_Reward q) (+ (off_Slc_Opt_T_locking_types_Reward q) (- k (off_Slc_Bytes t) base))) (+ nonce (- k (off_Slc_Bytes t) base)))))) :pattern ((select (arr_Slc_Bytes t) k)))))
+//@ smt (define-fun by_unl ((t Slc_Bytes) (base Int) (q Slc_Opt_T_locking_types_Unlock) (n Int) (nonce Int)) Bool (forall ((k Int)) (! (=> (and (<= (+ (off_Slc_Bytes t) base) k) (< k (+ (off_Slc_Bytes t) base n)))
+//@       (= (select (arr_Slc_Bytes t) k) (ethtx_bytes (ethtx_unlock (select (arr_Slc_Opt_T_locking_types_Unlock q) (+ (off_Slc_Opt_T_locking_types_Unlock q) (- k (off_Slc_Bytes t) base))) (+ nonce (- k (off_Slc_Bytes t) base)))))) :pattern ((select (arr_Slc_Bytes t) k)))))
+
+// C06, acceptance side: a payload passes only if its header counts exactly the system transactions that are due (the voted
+// block hash if one is owed, then deposits, paid and rejected withdrawals, then rewards and unlocks, within the caps) and its
+// leading transactions are byte-for-byte their encodings, in that order, numbered from the modules' current nonces.
 //@ func (Keeper).VerifyDequeue
-//@ requires counters: st.bitcoin.EthTxNonce < 9223372036854775808
-//@ property C08 C09
+//@ requires counters: st.bitcoin.EthTxNonce < 9223372036854775808 && st.locking.EthTxNonce < 9223372036854775808
+//@ property C06 C08 C09
+//@ let BN = old(st.bitcoin.EthTxNonce)
+//@ let LN = old(st.locking.EthTxNonce)
+//@ let h = hcnt(old(st.bitcoin.EthTxQueue.BlockNumber), st.bitcoin.BlockTip)
+//@ let d = minint(len(old(st.bitcoin.EthTxQueue.Deposits)), 8)
+//@ let p = minint(len(old(st.bitcoin.EthTxQueue.PaidWithdrawals)), 8)
+//@ let r = minint(len(old(st.bitcoin.EthTxQueue.RejectedWithdrawals)), 8 - minint(len(old(st.bitcoin.EthTxQueue.PaidWithdrawals)), 8))
+//@ let nr = minint(len(old(st.locking.EthTxQueue.Rewards)), 16)
+//@ let nu = minint(len(old(st.locking.EthTxQueue.Unlocks)), 16)
 //@ ensures shape: err == nil ==> len(txRoot) == params.GoatHeaderExtraLengthV0 && len(txs) >= bat(txRoot, 0)
+//@ ensures due_count: err == nil ==> bat(txRoot, 0) == h + d + p + r + nr + nu
+//@ ensures hash_bytes: err == nil && old(st.bitcoin.EthTxQueue.BlockNumber) < st.bitcoin.BlockTip ==> txs[0] == ethtx_bytes(ethtx_hash(BN, st.bitcoin.BlockHashes[old(st.bitcoin.EthTxQueue.BlockNumber) + 1]))
+//@ ensures deposit_bytes: err == nil ==> by_dep(txs, h, old(st.bitcoin.EthTxQueue.Deposits), d, BN + h)
+//@ ensures paid_bytes: err == nil ==> by_paid(txs, h + d, old(st.bitcoin.EthTxQueue.PaidWithdrawals), p, BN + h + d)
+//@ ensures reject_bytes: err == nil ==> by_rej(txs, h + d + p, old(st.bitcoin.EthTxQueue.RejectedWithdrawals), r, BN + h + d + p)
+//@ ensures reward_bytes: err == nil ==> by_rwd(txs, h + d + p + r, old(st.locking.EthTxQueue.Rewards), nr, LN)
+//@ ensures unlock_bytes: err == nil ==> by_unl(txs, h + d + p + r + nr, old(st.locking.EthTxQueue.Unlocks), nu, LN + nr)
 //@ loop 0 invariant idx: -1 <= rangeindex && rangeindex < len(btcTxs)
 //@ loop 0 invariant cnt: goatTxLen == bat(txRoot, 0) - (rangeindex + 1)
+//@ loop 0 invariant bytes: by_list(old(txs), 0, btcTxs, rangeindex + 1)
 //@ loop 1 invariant idx: -1 <= rangeindex && rangeindex < len(lockingTxs)
 //@ loop 1 invariant cnt: goatTxLen == bat(txRoot, 0) - len(btcTxs) - (rangeindex + 1)
+//@ loop 1 invariant bytes: by_list(old(txs), len(btcTxs), lockingTxs, rangeindex + 1)
 //@ modifies st.bitcoin.EthTxQueue, st.bitcoin.EthTxNonce, st.locking.EthTxQueue, st.locking.EthTxNonce
 
 // ---- C09: at the end of every block the engine is told exactly the recorded head -------------------------
@@ -92,7 +129,7 @@ package keeper
 
 // The handler returns (ACCEPT, nil) or (nil, err); baseapp turns an error into REJECT.
 //@ func (Keeper).ProcessProposalHandler$1
-//@ requires counters: st.bitcoin.EthTxNonce < 9223372036854775808
+//@ requires counters: st.bitcoin.EthTxNonce < 9223372036854775808 && st.locking.EthTxNonce < 9223372036854775808
 //@ property C08 C19
 //@ requires rpp != nil
 //@ requires counter: st.goat.Block.BlockNumber < 18446744073709551615
@@ -101,7 +138,7 @@ package keeper
 //@ ensures first_alone: err == nil ==> rawMsgCount(rpp.Txs[0]) == 1 && isNewEthBlockMsg(rawMsgAt(rpp.Txs[0], 0))
 //@ ensures no_later: err == nil ==> forall(i, 1, len(rpp.Txs), forall(j, 0, rawMsgCount(rpp.Txs[i]), !isNewEthBlockMsg(rawMsgAt(rpp.Txs[i], j))))
 //@ loop 0 invariant idx: -1 <= rangeindex && rangeindex < len(rpp.Txs)
-//@ loop 0 invariant untouched_before_first: rangeindex == -1 ==> st.bitcoin.EthTxNonce == old(st.bitcoin.EthTxNonce)
+//@ loop 0 invariant untouched_before_first: rangeindex == -1 ==> st.bitcoin.EthTxNonce == old(st.bitcoin.EthTxNonce) && st.locking.EthTxNonce == old(st.locking.EthTxNonce)
 //@ loop 0 invariant first_alone: rangeindex >= 0 ==> rawMsgCount(rpp.Txs[0]) == 1 && isNewEthBlockMsg(rawMsgAt(rpp.Txs[0], 0))
 //@ loop 0 invariant no_later: forall(i, 1, rangeindex + 1, forall(j, 0, rawMsgCount(rpp.Txs[i]), !isNewEthBlockMsg(rawMsgAt(rpp.Txs[i], j))))
 //@ loop 1 invariant idx: -1 <= rangeindex && rangeindex < len(msgs)
@@ -111,7 +148,7 @@ package keeper
 
 // Structural checks (goroutine 1) and engine newPayload (goroutine 2) run concurrently; Wait returns nil only if both did.
 //@ func (Keeper).verifyEthBlockProposal
-//@ requires counters: st.bitcoin.EthTxNonce < 9223372036854775808
+//@ requires counters: st.bitcoin.EthTxNonce < 9223372036854775808 && st.locking.EthTxNonce < 9223372036854775808
 //@ property C08 C19
 //@ requires msg != nil
 //@ requires counter: st.goat.Block.BlockNumber < 18446744073709551615
@@ -128,7 +165,7 @@ package keeper
 
 // goroutine 1: structural checks against the committed state
 //@ func (Keeper).verifyEthBlockProposal$1
-//@ requires counters: st.bitcoin.EthTxNonce < 9223372036854775808
+//@ requires counters: st.bitcoin.EthTxNonce < 9223372036854775808 && st.locking.EthTxNonce < 9223372036854775808
 //@ property C08 C19
 //@ requires nonnil: *msg != nil && *payload != nil
 //@ requires counter: st.goat.Block.BlockNumber < 18446744073709551615
@@ -188,7 +225,7 @@ package keeper
 
 // Dequeue: the system transactions handed to the engine when proposing (pops both module queues)
 //@ func (Keeper).Dequeue
-//@ requires counters: st.bitcoin.EthTxNonce < 9223372036854775808
+//@ requires counters: st.bitcoin.EthTxNonce < 9223372036854775808 && st.locking.EthTxNonce < 9223372036854775808
 //@ property C08 C19
 //@ loop 0 invariant idx: -1 <= rangeindex && rangeindex < len(btcTxs)
 //@ loop 1 invariant idx: -1 <= rangeindex && rangeindex < len(lockingTxs)
